@@ -8,6 +8,7 @@ import (
 	"flag"
 	"fmt"
 	"go/parser"
+	"go/types"
 	"golang.org/x/tools/go/ssa"
 	"os"
 	"path/filepath"
@@ -180,6 +181,33 @@ func cmdCheck(args []string) {
 		fmt.Printf("UNDISCHARGED %s\n", f)
 		report(p, " no-failing-input-found")
 	}
+	// repository implementations of contracted interface methods must themselves be under contract (in the
+	// packages this property has functions in)
+	propPkgs := map[string]bool{}
+	for _, k := range keys {
+		if c := eng.cs.Funcs[k]; c != nil {
+			propPkgs[c.Pkg] = true
+		}
+	}
+	var implFails []string
+	for _, l := range eng.uncontractedImpls(*prop) {
+		fnName := strings.SplitN(l, " implements ", 2)[0]
+		inPkg := false
+		for pk := range propPkgs {
+			short := calleeShort(pk + ".x")
+			short = strings.TrimSuffix(short, "x")
+			if short == "" || strings.HasPrefix(fnName, short) || (short == "." && !strings.Contains(strings.SplitN(fnName, "(", 2)[0], ".")) {
+				inPkg = true
+			}
+		}
+		if !inPkg {
+			continue
+		}
+		implFails = append(implFails, l)
+		p := writeReplay("impl-"+sanitize(fnName), map[string]interface{}{"obligation": fnName + ":impl-under-contract", "error": "a repository type implements an interface method that the contracts only assume (interface contract); the method itself has no contract: " + l})
+		fmt.Printf("UNDISCHARGED %s:impl-under-contract (%s)\n", fnName, l)
+		report(p, " no-failing-input-found")
+	}
 	lackObls, lackFails := eng.checkLacks(*prop)
 	for _, f := range lackFails {
 		p := writeReplay("lacks-"+f, map[string]interface{}{"obligation": f, "error": "method-set obligation failed (go/types)"})
@@ -332,7 +360,14 @@ func cmdCheck(args []string) {
 		report(p, suffix)
 	}
 
-	nObl := len(order) + len(lackObls) + len(writerObls)
+	nObl := len(order) + len(lackObls) + len(writerObls) + 1
+	if len(implFails) == 0 {
+		discharged++
+		byBackend["go/types implementer scan"]++
+		perObl = append(perObl, map[string]interface{}{"name": "implementers-under-contract", "backend": "go/types implementer scan", "status": "discharged"})
+	} else {
+		perObl = append(perObl, map[string]interface{}{"name": "implementers-under-contract", "backend": "go/types implementer scan", "status": "FAILED", "detail": implFails})
+	}
 	for _, l := range writerObls {
 		st := "discharged"
 		for _, f := range writerFails {
@@ -495,6 +530,94 @@ func (e *Engine) checkWriters(prop string) (names []string, fails []string) {
 		}
 	}
 	return
+}
+
+// uncontractedImpls: for every interface method that has an (assumed) interface contract, the named types of the
+// repository whose method set contains that method must carry a contract on their own method: the interface
+// contract is an assumption about foreign code, it must not silently cover repository code.
+func (e *Engine) uncontractedImpls(prop string) []string {
+	var out []string
+	seen := map[string]bool{}
+	for _, k := range sortedKeys(e.cs.Funcs) {
+		c := e.cs.Funcs[k]
+		if !c.Iface {
+			continue
+		}
+		it := e.lookupType(c.Pkg, c.RecvType)
+		if it == nil {
+			continue
+		}
+		iface, ok := it.Underlying().(*types.Interface)
+		if !ok {
+			continue
+		}
+		for _, p := range e.pkgs {
+			if p.Types == nil {
+				continue
+			}
+			sc := p.Types.Scope()
+			for _, n := range sc.Names() {
+				tn, ok := sc.Lookup(n).(*types.TypeName)
+				if !ok || tn.IsAlias() {
+					continue
+				}
+				named, ok := tn.Type().(*types.Named)
+				if !ok || named.TypeParams().Len() > 0 {
+					continue
+				}
+				if _, isIface := named.Underlying().(*types.Interface); isIface {
+					continue
+				}
+				for _, t := range []types.Type{named, types.NewPointer(named)} {
+					if !types.Implements(t, iface) {
+						continue
+					}
+					sel := e.prog.MethodSets.MethodSet(t).Lookup(tn.Pkg(), c.Name)
+					if sel == nil {
+						sel = e.prog.MethodSets.MethodSet(t).Lookup(nil, c.Name)
+					}
+					if sel == nil {
+						continue
+					}
+					fn := e.prog.MethodValue(sel)
+					if fn == nil {
+						continue
+					}
+					// promoted methods: the declaring method is what needs the contract
+					for fn.Synthetic != "" && len(fn.Blocks) > 0 {
+						var target *ssa.Function
+						for _, b := range fn.Blocks {
+							for _, in := range b.Instrs {
+								if call, ok := in.(ssa.CallInstruction); ok {
+									if cal := call.Common().StaticCallee(); cal != nil {
+										target = cal
+									}
+								}
+							}
+						}
+						if target == nil || target == fn {
+							break
+						}
+						fn = target
+					}
+					if fn.Pkg == nil || !strings.HasPrefix(fn.Pkg.Pkg.Path(), modPath) {
+						continue
+					}
+					fk := e.fnKey[fn]
+					if fk == "" || e.cs.Funcs[fk] != nil {
+						continue
+					}
+					line := calleeShort(fk) + " implements " + c.RecvType + "." + c.Name
+					if !seen[line] {
+						seen[line] = true
+						out = append(out, line)
+					}
+				}
+			}
+		}
+	}
+	sort.Strings(out)
+	return out
 }
 
 func writesSyncMapField(fn *ssa.Function, typeName, field string) bool {
